@@ -16,14 +16,20 @@ from translate import c16_fgd
 MANIFEST = dict(
     technique='Rocq proof (long-string writer/reader for all strings; token-level writers/parsers of the entity header (bases / aliasof, '
               'helpers, class name, description), of keyvalue, spawnflag, choices, I/O lines and @resources blocks for every split of long '
-              'strings, joined to the character level and composed into a whole entity definition; codec tables, bit packings, whole '
-              'binary records, blocks, file header and block positions; lazy database = eager database for all query orders including '
-              'what stored base names are replaced by; a LIST of databases: first-hit look-up = first-wins merge for all histories) + '
+              'strings, joined to the character level and composed into a whole entity definition; the type text between the parentheses '
+              'as programs read off KVDef._parse / IODef._parse and PROVED equal to the hand model on all inputs; the entity keyword and the '
+              'top-level dispatch of FGD.parse_file; codec tables, bit packings, whole binary records, blocks, file header and block '
+              'positions; the block builder of serialise(): every entity in exactly one block; lazy database = eager database for all '
+              'query orders including what stored base names are replaced by; a LIST of databases: first-hit look-up = first-wins merge '
+              'for all histories; one composed statement c16_property over the generated objects) + '
               'fail-closed ast translator that normalises before matching (constants, escape table, decisive writer branches read off '
               'all paths, I/O skeletons of the (un)serialisers, shape of get_ent/_parse_block/get_fgd, shape of the engine_def loop and '
-              'of the engine_dbase merge) + vm_compute correspondence (byte-exact for binary records and blocks of the shipped file; '
-              'token-exact for text lines and entity headers; histories over several hand-built databases) + export/parse/export, '
-              'binary and lazy-loading oracles on the bundled database, generated FGDs, hand-built databases and added databases',
+              'of the engine_dbase merge, symbolic execution of the type-text part of the line parsers, VALUE_TYPE_LOOKUP, the dispatch '
+              'chain of parse_file, shape of build_blocks and of the two loops of serialise) + vm_compute correspondence (byte-exact for '
+              'binary records and blocks of the shipped file; token-exact for text lines and entity headers; type texts, kind keywords, '
+              'block grouping; histories over several hand-built databases) + export/parse/export, binary and lazy-loading oracles on '
+              'the bundled database, generated FGDs (custom value types included), hand-written FGD texts, hand-built databases and '
+              'added databases',
     text='Theorems in Props/C16.v. Text: for every text, indent and line tail the reader (_handle_string and the "+" continuation of '
          '_read_colon_list) returns exactly what _write_longstring wrote, the writer never writes nothing, keeps every section within LIMIT '
          'and never cuts between a backslash and its symbol (extended syntax: all texts; plain syntax: texts without ", \\ and CR); at the '
@@ -34,31 +40,45 @@ MANIFEST = dict(
          'exactly the two texts; the entity header (base()/aliasof() with any number of bases, any list of helpers with or without '
          'arguments, class name, description) is read back as the same bases, alias flag, helper objects, name and description, and '
          'header + body compose into the round trip of a whole entity definition; the single-colon and only-non-empty-resources writer '
-         'variants are refuted. Binary: VALUE_TYPE_ORDER/'
+         'variants are refuted. Type text: every program read off KVDef._parse / IODef._parse that passes the named obligations equals '
+         'the hand model on all token texts (strip, a leading * = report, case-insensitive look-up in VALUE_TYPE_LOOKUP, unknown names kept '
+         'as written); export then parse is the identity on custom type names, parse then export is idempotent on known ones; casefold '
+         'before the fall-back is refuted. Kind keyword: every member of EntityTypes is written as a keyword that the dispatch chain of '
+         'FGD.parse_file reads back as that member (never as a directive); comparing without casefold is refuted. Binary: VALUE_TYPE_ORDER/'
          'FILE_TYPE_ORDER indexes, "index|128" bytes, EntFlags, spawnflag powers, BinStrDict indexes, 16-bit indexes, separator-joined '
          'lists; composed into ent_unserialise(ent_serialise(e) ++ rest) = (e, rest) for whole definitions and whole blocks with the '
-         'block dictionary, the file header and the block positions. Lazy: for every query sequence on a fresh database the answers '
+         'block dictionary, the file header and the block positions; build_blocks: for every configuration that keeps the first overflow '
+         'block in the list until it is filled - whatever the size tests, sizes, pair order and set iteration order - every entity is in '
+         'exactly one block and no empty block is written; dropping the empty overflow block early is refuted. Lazy: for every query '
+         'sequence on a fresh database the answers '
          '(definition AND what every stored base name was replaced by, alias chains across blocks included) equal those of the fully '
          'loaded database; base look-ups terminate; the ent_map-look-up variant is refuted. Several databases (add_engine_database): '
          'for every list of files and every history of EntityDef.engine_def() look-ups the answers equal FGD.engine_dbase() when the '
          'merge keeps the first definition of a class, both are the content of the first file that defines it, and the overwriting '
-         'merge (dict.update) is refuted on every class whose first and last definitions differ. The objects the theorems quantify over are '
+         'merge (dict.update) is refuted on every class whose first and last definitions differ. c16_property states text, type text, '
+         'kind keyword, block grouping and lazy loading at the generated objects under the conjunction of the named booleans, which is '
+         'itself an instance obligation of every run. The objects the theorems quantify over are '
          'regenerated from the source on every run and kernel-checked as named instance obligations; all hand models are compared with the '
          'implementation on generated and shipped data; the whole bundled database and generated FGDs are exported, parsed and exported '
          'again, serialised to the binary format and back (also as small databases that exercise the overflow blocks), queried lazily in '
-         'random orders, and queried with an added database in front of the bundled one.',
-    note='Still search only: snippets, @MaterialExclusion/@AutoVisgroup and autovis() helpers, the `@PointClass` keyword line of FGD.parse_file, '
+         'random orders, queried with an added database in front of the bundled one, and asked again after the caller changed the answers.',
+    note='Still search only: @include, @mapsize, @MaterialExclusion, @AutoVisgroup and @snippet bodies, autovis() helpers, '
          'FGD.sorted_ents, and the character-level lexing of everything except quoted strings (bare words, punctuation, comments): '
          'the line and header models work on the token stream of the real Tokenizer and are tied to the exporters/parsers by token-exact '
-         'correspondence (also on mutated token lists), not by a translator-generated core. Helper objects, value types, tags and numbers '
-         'are abstract in the theorems; their premises are checked on the real tables / generated helpers (data obligations). Block decoding '
-         'in the lazy model is a parameter (a function of the block bytes), lzma is outside the model, compute_ent_strings/build_blocks (how '
-         'entities are grouped into blocks) are not modelled (searched with small generated databases), deepcopy in engine_def/engine_dbase '
+         'correspondence (also on mutated token lists), not by a translator-generated core (the type text, the kind keyword and the block '
+         'builder configuration ARE generated). Helper objects, tags and numbers '
+         'are abstract in the theorems; their premises are checked on the real tables / generated helpers (data obligations). str.casefold is '
+         'modelled as ASCII lower-casing (the three laws the type-text proof needs are proved for it). Block decoding '
+         'in the lazy model is a parameter (a function of the block bytes), lzma is outside the model, compute_ent_strings (which strings a '
+         'block needs) and the final stable sort of the blocks by length are not modelled, deepcopy in engine_def/engine_dbase '
          'and FGD.apply_bases after the merge are outside the model. The translator assumes that attribute loads are plain field reads and '
          'that the str methods it inlines have no effects. Accepted normalisations of the text form: I/O types decay (VALUE_TO_IO_DECAY), empty BOOL '
          'default = "0", yes/no = 1/0, kv_order is compared as effective order, newlines in choice/flag names become spaces, '
-         'custom_syntax=False drops tags/resources/extension helpers/aliasof and cannot represent ", \\ or CR in texts. Quick tier runs the '
-         'bundled database under 2 of the 4 option sets (all 4 in the thorough tier and whenever a tie is broken). Trusted: Coq kernel + '
+         'custom_syntax=False drops tags/resources/extension helpers/aliasof and cannot represent ", \\ or CR in texts; a custom type name '
+         'must be stripped, must not start with * and must not be a spelling of a known type. Quick tier runs the '
+         'bundled database under 2 of the 4 option sets (all 4 in the thorough tier and whenever a tie is broken). Stages run in forked '
+         'worker processes with wall limits: a search stage that does not return or raises unexpectedly is reported as a violation whose '
+         'replay re-runs the stage; a tie stage that times out is an internal error. Trusted: Coq kernel + '
          'vm_compute, translate/c16_fgd.py, hand models Fmt/LongString.v, Fmt/FgdBin.v, Fmt/FgdBinEnt.v, Fmt/FgdLine.v, Fmt/FgdBody.v, '
          'Fmt/FgdHead.v, SM/LazyDb.v, SM/LazyDbMulti.v (tied by correspondence), the real Tokenizer as lexer of the line correspondences, CPython.',
 )
@@ -455,9 +475,19 @@ Fixpoint tok_eqb (a b : tok) : bool :=
   match a, b with TStr x, TStr y | TParen x, TParen y => str_eqb x y | TColon, TColon | TEq, TEq | TPlus, TPlus | TNl, TNl
   | TBrOpen, TBrOpen | TBrClose, TBrClose | TComma, TComma | TOther, TOther => true | _, _ => false end.
 Definition vt_text (v : N) : list N := nth (N.to_nat v) vt_texts [].
-Definition vt_lookup (s : list N) : option (bool * N) := flat (sassoc s vt_tab).
-Definition io_text (v : N) : list N := nth (N.to_nat v) io_texts [].
-Definition io_lookup (s : list N) : option N := flat (sassoc s io_tab).
+(* the type between the parentheses: the programs, the table and the decay read from the source (Fmt/FgdTypeText.v), members as
+   their index in the implementation's list(ValueTypes); an unknown type raises (the line parsers are run without the option) *)
+Fixpoint vt_index_from (i : N) (c : list N) (l : list (list N)) : option N :=
+  match l with [] => None | x :: r => if str_eqb x c then Some i else vt_index_from (i + 1) c r end.
+Definition vt_index (c : list N) : option N := vt_index_from 0 c vt_texts.
+Definition vt_lookup (s : list N) : option (bool * N) :=
+  match FgdTypeText.trun lower vt_lookup_tab kv_type_prog s with
+  | (b, FgdTypeText.Known c) => match vt_index c with Some i => Some (b, i) | None => None end
+  | _ => None
+  end.
+Definition io_text (v : N) : list N := FgdTypeText.io_text_of io_decay_tab io_special_text (vt_text v).
+Definition io_lookup (s : list N) : option N :=
+  match FgdTypeText.trun lower vt_lookup_tab io_type_prog s with (_, FgdTypeText.Known c) => vt_index c | _ => None end.
 Definition rt_text (v : N) : list N := nth (N.to_nat v) rt_texts [].
 Definition rt_lookup (s : list N) : option N := flat (sassoc s rt_tab).
 Definition decf (n : N) : list N := match find (fun p => fst p =? n) dec_tab with Some p => snd p | None => [] end.
@@ -562,21 +592,6 @@ class LineTables:
             if v is not None and len(v) <= 40:
                 self.raw.add(v)
 
-    def vt_lookup(self, raw: str) -> Optional[tuple[bool, int]]:
-        from srctools.fgd import VALUE_TYPE_LOOKUP
-        r = raw.strip()
-        star = r.startswith('*')
-        if star:
-            r = r[1:]
-        v = VALUE_TYPE_LOOKUP.get(r.casefold())
-        return None if v is None else (star, self.vt_index[v])
-
-    def io_lookup(self, raw: str) -> Optional[int]:
-        from srctools.fgd import VALUE_TYPE_LOOKUP, ValueTypes
-        r = raw.strip()
-        v = ValueTypes.EHANDLE if r == 'ehandle' else VALUE_TYPE_LOOKUP.get(r.casefold())
-        return None if v is None else self.vt_index[v]
-
     def rt_lookup(self, raw: str) -> Optional[int]:
         from srctools.fgd import RESTYPE_BY_NAME
         v = RESTYPE_BY_NAME.get(raw.casefold())
@@ -596,11 +611,7 @@ class LineTables:
         raws = sorted(self.raw)
         lines = [
             'Definition vt_texts : list (list N) := %s.' % coq_list(coq_s(v.value) for v in self.vts),
-            'Definition io_texts : list (list N) := %s.' % coq_list(coq_s(x) for x in self.io_text),
             'Definition rt_texts : list (list N) := %s.' % coq_list(coq_s(RESTYPE_TO_NAME[v]) for v in self.rts),
-            'Definition vt_tab : list (list N * option (bool * N)) := %s.' % coq_list(
-                '(%s, %s)' % (coq_s(r), opt(self.vt_lookup(r), lambda p: '(%s, %d)' % (coq_bool(p[0]), p[1]))) for r in raws),
-            'Definition io_tab : list (list N * option N) := %s.' % coq_list('(%s, %s)' % (coq_s(r), opt(self.io_lookup(r), str)) for r in raws),
             'Definition rt_tab : list (list N * option N) := %s.' % coq_list('(%s, %s)' % (coq_s(r), opt(self.rt_lookup(r), str)) for r in raws),
             'Definition undec_tab : list (list N * option N) := %s.' % coq_list('(%s, %s)' % (coq_s(r), opt(self.undec(r), str)) for r in raws),
             'Definition dec_tab : list (N * list N) := %s.' % coq_list('(%d, %s)' % (n, coq_s(str(n))) for n in sorted(self.ints)),
@@ -720,11 +731,11 @@ def line_data_obligations(ck: Ck) -> None:
     """Premises of the line theorems of Props/C16.v that are facts about the implementation's tables (exhaustive)."""
     import srctools.fgd as F
     lt = LineTables()
-    bad = [v.name for v in lt.vts if lt.vt_lookup(v.value) != (False, lt.vt_index[v])]
+    bad = [v.name for v in lt.vts if impl_type_of('kv', v.value, False) != (False, v)]      # the real KVDef._parse, strict
     ck.obligation('data:value_type_names_look_up_to_themselves', not bad,
                   f'{len(lt.vts)} ValueTypes: strip / leading * / casefold / VALUE_TYPE_LOOKUP of `.value` gives the member, not reportable '
                   f'(premise vt_lookup (vt_text v) = Some (false, v)); failing: {bad}')
-    bad = [v.name for i, v in enumerate(lt.vts) if lt.io_lookup(lt.io_text[i]) != lt.vt_index[F.VALUE_TO_IO_DECAY[v]]]
+    bad = [v.name for i, v in enumerate(lt.vts) if impl_type_of('io', lt.io_text[i], False) != (False, F.VALUE_TO_IO_DECAY[v])]   # the real IODef._parse
     ck.obligation('data:io_type_names_look_up_to_the_decayed_type', not bad,
                   f'what IODef.export writes for each of the {len(lt.vts)} types is read back as VALUE_TO_IO_DECAY[type] '
                   f'(premise io_lookup (io_text v) = Some (io_decay v)); failing: {bad}')
@@ -954,7 +965,7 @@ def corr_lines(ck: Ck) -> None:
         'let \'(l, cu, its, r) := c in BT l cu its r)) ' + coq_list('(%s, %s)' % (a, tl(ts)) for a, ts in w_body),
         'map (fun c : list tok * option (body N N * N) => pcase body_eqb (BR (fst c)) (snd c)) ' + coq_list('(%s, %s)' % (tl(ts), w) for ts, w in p_body),
     ]
-    vals = ck.coq_eval(IMPORTS, exprs, name='lines', preamble=PRE + lt.preamble(), timeout=900)
+    vals = ck.coq_eval(IMPORTS + ['SV.Fmt.FgdTypeText'], exprs, name='lines', preamble=PRE + lt.preamble(), timeout=900)
     names = ['KVDef.export', 'KVDef._parse', 'IODef.export', 'IODef._parse', 'EntityDef.export @resources', 'EntityDef.parse @resources',
              'EntityDef.export body', 'EntityDef.parse body']
     if vals is None:
@@ -1758,6 +1769,422 @@ def corr_multi(ck: Ck, via: bool, merge_first: bool) -> None:
         ck.extra['multi_disagreement'] = {'scenario': rows[bad[0]][0], 'impl': rows[bad[0]][1]}
 
 
+# =============================================================================================== type text of keyvalue / IO lines
+def impl_type_of(which: str, raw: str, ignore: bool = True) -> Optional[tuple[bool, Any]]:
+    """What the real KVDef._parse ('kv') / IODef._parse ('io') make of the PAREN_ARGS text `raw`: (reportable, _type), None when
+    they raise.  The type text is not a function of its own in the implementation, so the parsers are run on the shortest token
+    lists that are complete lines for every type (plain, spawnflags `= [ ]`, choices `: "n" = [ ]`)."""
+    import warnings
+    import srctools.fgd as F
+    from srctools.tokenizer import IterTokenizer, Token as T
+    lst = [(T.EQUALS, '='), (T.NEWLINE, '\n'), (T.BRACK_OPEN, '['), (T.NEWLINE, '\n'), (T.BRACK_CLOSE, ']'), (T.NEWLINE, '\n')]
+    streams = [[(T.PAREN_ARGS, raw), (T.NEWLINE, '\n')], [(T.PAREN_ARGS, raw)] + lst, [(T.PAREN_ARGS, raw), (T.COLON, ':'), (T.STRING, 'n')] + lst]
+    for st in streams if which == 'kv' else streams[:1]:
+        tok = IterTokenizer(iter(st if which == 'kv' else [(T.STRING, 'Name')] + st), 'c16', F.FGDParseError)
+        try:
+            with warnings.catch_warnings():
+                warnings.simplefilter('ignore')
+                if which == 'kv':
+                    _, o = F.KVDef._parse(F.FGD(), 'name', tok, 'c16', ignore)
+                    return bool(o.reportable), o._type
+                _, o2 = F.IODef._parse(F.FGD(), tok, ignore)
+                return False, o2._type
+        except Exception:   # noqa: BLE001
+            continue
+    return None
+
+
+def coq_chars(x: str) -> str:
+    return '[' + ';'.join(str(ord(c)) for c in x) + ']'
+
+
+def random_case(rng: random.Random, s: str) -> str:
+    r = rng.random()
+    if r < 0.25:
+        return s
+    if r < 0.45:
+        return s.upper()
+    if r < 0.6:
+        return s.title()
+    return ''.join(c.upper() if rng.random() < 0.5 else c.lower() for c in s)
+
+
+def gen_type_text(rng: random.Random) -> tuple[str, str]:
+    """A text for the parentheses of a keyvalue / input / output line and its class: a known type name in some spelling
+    (any case, blanks around it, a leading '*'), or a custom name (mixed case, digits, underscores)."""
+    from srctools.fgd import VALUE_TYPE_LOOKUP
+    r = rng.random()
+    if r < 0.45:
+        body, cls = random_case(rng, rng.choice(sorted(VALUE_TYPE_LOOKUP))), 'known'
+    elif r < 0.8:
+        body, cls = rng.choice(CUSTOM_TYPES), 'custom'
+    elif r < 0.95:
+        body = rng.choice('ABCXYZabcxyz_') + ''.join(rng.choice('ABCDEFxyzuvw0123456789_') for _ in range(rng.randint(0, 10)))
+        cls = 'custom' if body.casefold() not in VALUE_TYPE_LOOKUP and body != 'ehandle' else 'known'
+    else:
+        return rng.choice(['', ' ', '*', '* Foo', '**Foo', 'ehandle', 'EHANDLE', ' ehandle ', '*ehandle', 'two words', 'Two  Words ']), 'edge'
+    if rng.random() < 0.15:
+        body, cls = '*' + body, cls + '+star'
+    if rng.random() < 0.3:
+        body = rng.choice(['', ' ', '\t', '  ']) + body + rng.choice(['', ' ', '\t '])
+        cls += '+blanks'
+    return body, cls
+
+
+def coq_ty(t: Any) -> str:
+    from srctools.fgd import ValueTypes
+    return 'Known ' + coq_chars(t.value) if isinstance(t, ValueTypes) else 'Custom ' + coq_chars(t)
+
+
+TYPE_PRE = """Definition ty_eqb (a b : ty) : bool :=
+  match a, b with Known x, Known y | Custom x, Custom y => str_eqb x y | _, _ => false end.
+Definition res_eqb (a b : bool * ty) : bool := Bool.eqb (fst a) (fst b) && ty_eqb (snd a) (snd b).
+(* with ignore_unknown_valuetype=False an unknown type raises *)
+Definition strict (r : bool * ty) : option (bool * ty) := match snd r with Known _ => Some r | Custom _ => None end.
+Definition ores_eqb (a b : option (bool * ty)) : bool :=
+  match a, b with Some x, Some y => res_eqb x y | None, None => true | _, _ => false end.
+Definition KV (raw : list N) := trun lower vt_lookup_tab kv_type_prog raw.
+Definition IO (raw : list N) := trun lower vt_lookup_tab io_type_prog raw.
+"""
+
+
+def corr_type_text(ck: Ck) -> None:
+    """Fmt/FgdTypeText.v with the programs and the table read from the source against the implementation: for generated texts between
+    the parentheses (known names in any case, with blanks and a leading '*', custom names with mixed case / digits / underscores, edge
+    cases) KVDef._parse and IODef._parse, with and without ignore_unknown_valuetype, == trun ... kv_type_prog / io_type_prog; and the
+    PAREN_ARGS token the real Tokenizer reads from what KVDef.export / IODef.export write for a custom type == kv_type_text / io_type_text."""
+    from srctools.fgd import IODef, KVDef, ValueTypes
+    from srctools.tokenizer import Token as T
+    rng = ck.rng
+    raws = ['integer', ' *Integer ', 'BOOL', 'Locale_ID', 'BitField32', 'EHANDLE', 'ehandle', ' ehandle', '*X', '', '*', '* Foo', 'Target_Destination']
+    classes = ['corpus'] * len(raws)
+    for _ in range(ck.budget(160, 1500)):
+        raw, cls = gen_type_text(rng)
+        raws.append(raw)
+        classes.append(cls)
+    rows_kv, rows_io, rows_kv_s, rows_io_s, seen = [], [], [], [], set()
+    for raw, cls in zip(raws, classes):
+        if raw in seen or not raw.isascii():
+            continue
+        seen.add(raw)
+        ck.count('corr_type_text')
+        ck.hist('type_text_class', cls)
+        if any(c.isupper() for c in raw):
+            ck.seen(('typetext', raw))
+        for which, loose, strict_rows in (('kv', rows_kv, rows_kv_s), ('io', rows_io, rows_io_s)):
+            r = impl_type_of(which, raw, True)
+            if r is not None:       # (a complete line for every type exists, so the permissive parsers do not raise)
+                loose.append('(%s, (%s, %s))' % (coq_chars(raw), coq_bool(r[0]), coq_ty(r[1])))
+            else:
+                loose.append('(%s, (false, Custom [0;0;0]))' % coq_chars(raw))
+            r2 = impl_type_of(which, raw, False)
+            strict_rows.append('(%s, %s)' % (coq_chars(raw), 'None' if r2 is None else 'Some (%s, %s)' % (coq_bool(r2[0]), coq_ty(r2[1]))))
+    w_rows = []
+    for name in CUSTOM_TYPES + ['lower_case_name', 'MiXeD_9']:
+        for which in ('kv', 'io'):
+            buf = io.StringIO()
+            if which == 'kv':
+                KVDef('key', name, 'Key').export(buf)
+            else:
+                IODef('Fire', name).export(buf, 'input')
+            parens = [v for t, v in fgd_tokens(buf.getvalue()) if t is T.PAREN_ARGS]
+            w_rows.append('(%s, %s)' % (coq_chars(name), coq_chars(parens[0] if len(parens) == 1 else '<no single PAREN_ARGS token>')))
+    for v in ValueTypes:
+        buf = io.StringIO()
+        KVDef('key', v, 'Key', val_list=[] if v.has_list else None).export(buf)
+        parens = [x for t, x in fgd_tokens(buf.getvalue()) if t is T.PAREN_ARGS]
+        w_rows.append('(%s, %s)' % (coq_chars(v.value), coq_chars(parens[0] if len(parens) == 1 else '<no single PAREN_ARGS token>')))
+    io_rows = []
+    for v in ValueTypes:
+        buf = io.StringIO()
+        IODef('Fire', v).export(buf, 'input')
+        parens = [x for t, x in fgd_tokens(buf.getvalue()) if t is T.PAREN_ARGS]
+        io_rows.append('(%s, %s)' % (coq_chars(v.value), coq_chars(parens[0] if len(parens) == 1 else '<no single PAREN_ARGS token>')))
+    exprs = [
+        # IODef.export for every member: the literal spellings and VALUE_TO_IO_DECAY read from the source
+        'bad_idx (fun c : list N * list N => str_eqb (io_text_of io_decay_tab io_special_text (fst c)) (snd c)) 0 ' + coq_list(io_rows),
+        'bad_idx (fun c : list N * (bool * ty) => res_eqb (KV (fst c)) (snd c)) 0 ' + coq_list(rows_kv),
+        'bad_idx (fun c : list N * (bool * ty) => res_eqb (IO (fst c)) (snd c)) 0 ' + coq_list(rows_io),
+        'bad_idx (fun c : list N * option (bool * ty) => ores_eqb (strict (KV (fst c))) (snd c)) 0 ' + coq_list(rows_kv_s),
+        'bad_idx (fun c : list N * option (bool * ty) => ores_eqb (strict (IO (fst c))) (snd c)) 0 ' + coq_list(rows_io_s),
+        # writers: custom names and canonical names are written as they are
+        'bad_idx (fun c : list N * list N => str_eqb (kv_type_text (Custom (fst c))) (snd c)) 0 ' + coq_list(w_rows),
+    ]
+    vals = ck.coq_eval(IMPORTS + ['SV.Fmt.FgdTypeText'], exprs, name='typetext', preamble=PRE + TYPE_PRE, timeout=600)
+    if vals is None:
+        ck.obligation('correspondence:text_type_text', False, 'model could not be evaluated')
+        ck.tie_broken.append('correspondence type text: model evaluation failed')
+        return
+    bad = [parse_coq_N_list(v) for v in vals]
+    names = ['IODef.export members', 'KVDef._parse', 'IODef._parse', 'KVDef._parse strict', 'IODef._parse strict', 'export']
+    nbad = sum(len(b) for b in bad)
+    ck.obligation('correspondence:text_type_text', nbad == 0,
+                  f'{len(rows_kv)} texts between the parentheses x (KVDef._parse, IODef._parse) x (ignore_unknown_valuetype on / off) and '
+                  f'{len(w_rows) + len(io_rows)} written type texts (custom names, canonical names, every member on an I/O line) == Fmt/FgdTypeText.v with the programs and VALUE_TYPE_LOOKUP read from the source: '
+                  + ', '.join(f'{n}: {len(b)} disagreements' for n, b in zip(names, bad)))
+    if nbad:
+        ck.tie_broken.append('correspondence type text (Fmt/FgdTypeText.v vs fgd.py)')
+        k = next(i for i, b in enumerate(bad) if b)
+        rows = [io_rows, rows_kv, rows_io, rows_kv_s, rows_io_s, w_rows][k]
+        ck.extra['type_text_disagreement'] = {'site': names[k], 'row': rows[bad[k][0]][:400]}
+
+
+def type_text_fgd(lines: list[tuple[str, str, str]]) -> str:
+    """A hand-written FGD: one entity whose keyvalue / input / output lines carry the given texts between the parentheses."""
+    out = ['@PointClass = c16_types : "types"', '\t[']
+    for i, (cat, raw, _) in enumerate(lines):
+        if cat == 'keyvalue':
+            out.append(f'\tkey{i}({raw}) : "Key {i}" : "d{i}" : "a keyvalue"')
+        else:
+            out.append(f'\t{cat} Io{i}({raw}) : "an {cat}"')
+    out += ['\t]', '']
+    return '\n'.join(out)
+
+
+def check_type_text(lines: list[tuple[str, str, str]]) -> list[tuple[str, str]]:
+    """[(key, what)] for a hand-written FGD with the given type texts: every custom name must be kept as written (stripped), every
+    spelling of a known name must give that member; export -> parse must give the same definitions and the same text again."""
+    from srctools.fgd import VALUE_TYPE_LOOKUP, ValueTypes
+    from srctools.tokenizer import TokenSyntaxError
+    text = type_text_fgd(lines)
+    try:
+        f1 = parse_text(text, True)
+    except (TokenSyntaxError, ValueError, KeyError) as e:
+        return [('type-text-parse-error', f'hand-written FGD with custom value types does not parse with ignore_unknown_valuetype=True: {str(e)[:200]}')]
+    ent = f1.entities['c16_types']
+    out = []
+    for i, (cat, raw, _) in enumerate(lines):
+        name = f'key{i}' if cat == 'keyvalue' else f'io{i}'
+        tm = getattr(ent, cat + 's').get(name)
+        if not tm:
+            out.append((f'type-text-line-lost:{cat}', f'the {cat} line with type text {raw!r} is not in the parsed entity'))
+            continue
+        got = next(iter(tm.values()))._type
+        body = raw.strip()
+        if cat == 'keyvalue' and body.startswith('*'):
+            body = body[1:]
+        want: Any = ValueTypes.EHANDLE if (cat != 'keyvalue' and body == 'ehandle') else VALUE_TYPE_LOOKUP.get(body.casefold(), body)
+        if got != want:
+            kind = 'known-type-not-recognised' if isinstance(want, ValueTypes) else 'custom-type-name-not-kept'
+            out.append((f'type-text-{kind}:{cat}', f'{cat} line `({raw})` parsed with ignore_unknown_valuetype=True has type {got!r}, expected {want!r}'))
+    if out:
+        return out
+    t1 = f1.export()
+    try:
+        f2 = parse_text(t1, True)
+    except (TokenSyntaxError, ValueError, KeyError) as e:
+        return [('type-text-export-unparseable', f'export of the parsed FGD does not parse: {str(e)[:200]}')]
+    c1, c2 = canon_ent(ent), canon_ent(f2.entities['c16_types'])
+    d = diff_fields(c1, c2)
+    if d:
+        bad = [(a, b) for f in d for a, b in zip(c1[f], c2[f]) if a != b][:2]
+        return [(f'type-text-definition-changed:{"+".join(d)}', f'export -> parse changed {d}: {bad}')]
+    t2 = f2.export()
+    if t1 != t2:
+        l1, l2 = t1.splitlines(), t2.splitlines()
+        j = next((j for j, (x, y) in enumerate(zip(l1, l2)) if x != y), min(len(l1), len(l2)))
+        return [('type-text-text-not-fixed-point', f'second export differs: {l1[j:j + 1]} vs {l2[j:j + 1]}')]
+    return []
+
+
+def search_type_text(ck: Ck) -> None:
+    """Text -> parse -> export -> parse -> export for hand-written entities whose keyvalue, input and output lines carry custom value
+    type names and mixed-case spellings of the known ones, through FGD.parse_file(ignore_unknown_valuetype=True); and the strict
+    parser must refuse exactly the unknown names."""
+    from srctools.fgd import VALUE_TYPE_LOOKUP
+    from srctools.tokenizer import TokenSyntaxError
+    rng = ck.rng
+    for i in range(ck.budget(60, 800)):
+        lines = []
+        for _ in range(rng.randint(1, 6)):
+            cat = rng.choice(['keyvalue', 'input', 'output'])
+            for _try in range(20):
+                raw, cls = gen_type_text(rng)
+                body = raw.strip().lstrip('*').strip()
+                # a name the format cannot carry is not an input of this search: empty, blanks inside, list types on a keyvalue
+                # line without list, a '*' that is not the single leading report mark of a keyvalue
+                if cls == 'edge' and raw.strip() not in ('ehandle', 'EHANDLE'):
+                    continue
+                if not body or ' ' in body or '\t' in body or (cat == 'keyvalue' and body.casefold() in ('choices', 'flags')):
+                    continue
+                if '*' in raw and (cat != 'keyvalue' or raw.strip().count('*') != 1 or raw.strip()[1:] != raw.strip()[1:].strip()):
+                    continue
+                break
+            else:
+                continue
+            lines.append((cat, raw, cls))
+        if not lines:
+            continue
+        ck.count('search_type_text')
+        for cat, raw, cls in lines:
+            ck.hist('type_text_lines', f'{cat}:{cls.split("+")[0]}')
+        if any(c.isupper() for _, raw, _ in lines for c in raw):
+            ck.seen(('typetextfgd', tuple(lines)))
+        found = check_type_text(lines)
+        # the strict parser: a file with an unknown name must be refused, a file without must parse
+        unknown = [raw for cat, raw, _ in lines
+                   if (raw.strip()[1:] if cat == 'keyvalue' and raw.strip().startswith('*') else raw.strip()).casefold() not in VALUE_TYPE_LOOKUP
+                   and not (cat != 'keyvalue' and raw.strip() == 'ehandle')]
+        try:
+            parse_text(type_text_fgd(lines), False)
+            if unknown:
+                found.append(('type-text-strict-parser-accepts-unknown-type', f'FGD.parse_file without ignore_unknown_valuetype accepted {unknown[:2]}'))
+        except TokenSyntaxError as e:
+            if not unknown:
+                found.append(('type-text-strict-parser-refuses-known-type', f'FGD.parse_file refuses a file with known types only: {str(e)[:160]}'))
+        for key, what in found:
+            small = list(lines)
+            for ln in list(small):           # shrink: drop lines while the same key is reported
+                cand = [x for x in small if x is not ln]
+                if cand and any(k == key for k, _ in check_type_text(cand)):
+                    small = cand
+            if not any(k == key for k, _ in check_type_text(small)):
+                small = list(lines)
+            ck.violation(key, what, {'kind': 'type_text', 'lines': [list(x) for x in small], 'text': type_text_fgd(small)})
+
+
+def corr_kind_keyword(ck: Ck) -> None:
+    """Fmt/FgdKindKw.v with the objects read from the source against the implementation: the first token of what EntityDef.export writes
+    for every kind == kind_written; FGD.parse_file on `<keyword> = name [ ]` with the keyword of every kind in random case, unknown
+    '@' keywords and bare words == kw_dispatch (the kind it creates / a parse error)."""
+    from srctools.fgd import EntityDef, EntityTypes
+    from srctools.tokenizer import TokenSyntaxError
+    rng = ck.rng
+    w_rows, d_rows = [], []
+    for kind in EntityTypes:
+        buf = io.StringIO()
+        EntityDef(kind, 'c16_kind').export(buf)
+        first = fgd_tokens(buf.getvalue())[0][1]
+        w_rows.append('(%s, %s)' % (coq_chars(kind.value), coq_chars(first)))
+    words = ['@' + k.value for k in EntityTypes] * 3 + ['@fooclass', 'pointclass', '@', '@point class'.replace(' ', '_'), '@classpoint', '@BaseClas', 'x']
+    for w in words:
+        kw = random_case(rng, w)
+        ck.count('corr_kind_keyword')
+        ck.hist('kind_keyword', 'kind' if w[1:] in {k.value for k in EntityTypes} and w.startswith('@') else 'other')
+        try:
+            f = parse_text(f'{kw} = c16_kind : "d"\n\t[\n\t]\n')
+            got = 'KKind ' + coq_chars(f.entities['c16_kind'].type.value)
+        except TokenSyntaxError:
+            got = 'KError'
+        d_rows.append('(%s, %s)' % (coq_chars(kw), got))
+    exprs = ['bad_idx (fun c : list N * list N => str_eqb (kind_written kind_writer_ops (fst c)) (snd c)) 0 ' + coq_list(w_rows),
+             'bad_idx (fun c : list N * kw => kw_eqb (kw_dispatch pf_token_folded pf_directives entity_kind_values (fst c)) (snd c)) 0 ' + coq_list(d_rows)]
+    vals = ck.coq_eval(IMPORTS + ['SV.Fmt.FgdKindKw'], exprs, name='kindkw', preamble=PRE, timeout=600)
+    if vals is None:
+        ck.obligation('correspondence:text_kind_keyword', False, 'model could not be evaluated')
+        ck.tie_broken.append('correspondence kind keyword: model evaluation failed')
+        return
+    bad = [parse_coq_N_list(v) for v in vals]
+    ck.obligation('correspondence:text_kind_keyword', not bad[0] and not bad[1],
+                  f'{len(w_rows)} kinds as written by EntityDef.export and {len(d_rows)} top-level keywords through FGD.parse_file == Fmt/FgdKindKw.v with '
+                  f'the directive list, token normalisation and writer operations read from the source: {len(bad[0])} + {len(bad[1])} disagreements')
+    if bad[0] or bad[1]:
+        ck.tie_broken.append('correspondence kind keyword (Fmt/FgdKindKw.v vs fgd.py)')
+        ck.extra['kind_keyword_disagreement'] = {'writer': [w_rows[i] for i in bad[0][:2]], 'dispatch': [d_rows[i] for i in bad[1][:2]]}
+
+
+# =============================================================================================== blocks of the binary database
+def impl_build_blocks(sizes: list[int], pairs: list[tuple[int, int]]) -> list[list[int]]:
+    """The real _engine_db.build_blocks on entities 0..n-1 (it only uses them as dictionary keys): the blocks in the order returned."""
+    import srctools._engine_db as E
+    n = len(sizes)
+    with contextlib.redirect_stdout(io.StringIO()):
+        out = E.build_blocks(list(range(n)), {i: {f's{i}'} for i in range(n)}, dict(enumerate(sizes)), [(a, b, 0) for a, b in pairs])
+    return [list(ents) for ents, _ in out]
+
+
+def gen_block_case(rng: random.Random, max_size: int) -> tuple[list[int], list[tuple[int, int]]]:
+    """Sizes on the scale of MAX_BLOCK_SIZE (blocks fill with 2-8 entities) and a random list of overlapping pairs: some entities
+    in no pair at all, pairs that merge blocks, pairs refused because a block is full."""
+    n = rng.randint(1, 14)
+    scale = rng.choice([max_size // 2, max_size // 3, max_size // 5, max_size // 9, max_size + 1])
+    sizes = [rng.randint(max(1, scale // 2), scale) for _ in range(n)]
+    in_pairs = [i for i in range(n) if rng.random() < rng.choice([0.4, 0.7, 0.95])]
+    pairs = []
+    for _ in range(rng.randint(0, 2 * n)):
+        if len(in_pairs) >= 2:
+            a, b = rng.sample(in_pairs, 2)
+            pairs.append((a, b))
+    return sizes, pairs
+
+
+def check_blocks(sizes: list[int], pairs: list[tuple[int, int]]) -> Optional[str]:
+    got = impl_build_blocks(sizes, pairs)
+    flat = sorted(e for b in got for e in b)
+    if flat != list(range(len(sizes))):
+        lost = sorted(set(range(len(sizes))) - set(flat))
+        twice = sorted({e for e in flat if flat.count(e) > 1})
+        return f'build_blocks: entities {lost} are in no block, {twice} in more than one (blocks {got})'
+    if any(not b for b in got):
+        return f'build_blocks returns a block without entities: {got}'
+    return None
+
+
+def corr_blocks(ck: Ck) -> None:
+    """SM/FgdBlocks.v with the configuration read from the source against the real build_blocks: generated sizes and pair lists ->
+    the same blocks with the same entities in the same order (compared as sorted lists of blocks: the final sort by length is stable
+    but not modelled); the leftovers are given to the model in the iteration order of a Python set built like `todo`."""
+    import srctools._engine_db as E
+    rng = ck.rng
+    max_size = int(E.MAX_BLOCK_SIZE)
+    cases = [([5, 5, 5], [(0, 1)]), ([max_size] * 3, []), ([1], []), ([max_size // 2] * 6, [(0, 1), (2, 3), (1, 2), (4, 5)])]
+    for _ in range(ck.budget(120, 1500)):
+        cases.append(gen_block_case(rng, max_size))
+    rows, want = [], []
+    for sizes, pairs in cases:
+        got = impl_build_blocks(sizes, pairs)
+        order_all = list(set(range(len(sizes))))     # the iteration order of a set built like `todo`; the model keeps the unplaced ones
+        rows.append('(%s, %s, %s)' % (coq_list(str(x) for x in sizes), coq_list('(%d, %d)' % p for p in pairs), coq_list(str(x) for x in order_all)))
+        want.append(sorted(got))
+        ck.count('corr_blocks')
+        ck.hist('blocks_shape', f'{min(len(got), 4)}+ blocks' if len(got) >= 4 else f'{len(got)} blocks')
+        if len(got) > 1 and pairs:
+            ck.seen(('blocks', tuple(sizes), tuple(pairs)))
+    expr = ('map (fun c : list N * list (N * N) * list N => let \'(sizes, pairs, ord) := c in let sz := fun e => nth (N.to_nat e) sizes 0 in '
+            'let bl := pair_loop gen_bcfg sz max_block_size pairs in '
+            'build_with gen_bcfg sz max_block_size pairs (filter (fun e => negb (memN e (List.concat bl))) ord)) ' + coq_list(rows))
+    vals = ck.coq_eval(IMPORTS + ['SV.SM.FgdBlocks'], [expr], name='blocks', preamble=PRE, timeout=600)
+    if vals is None:
+        ck.obligation('correspondence:binary_block_builder', False, 'model could not be evaluated')
+        ck.tie_broken.append('correspondence build_blocks: model evaluation failed')
+        return
+    model = parse_coq_nested(vals[0])
+    bad = [i for i, (m, w) in enumerate(zip(model, want)) if sorted(m) != w]
+    ck.obligation('correspondence:binary_block_builder', not bad and len(model) == len(want),
+                  f'{len(want)} generated (sizes, overlapping pairs): blocks of the real build_blocks == build_with gen_bcfg (SM/FgdBlocks.v, configuration read '
+                  f'from the source), entities in the same order inside every block: {len(bad)} disagreements')
+    if bad:
+        ck.tie_broken.append('correspondence build_blocks (SM/FgdBlocks.v vs _engine_db.py)')
+        ck.extra['blocks_disagreement'] = {'sizes': cases[bad[0]][0], 'pairs': cases[bad[0]][1], 'impl': want[bad[0]], 'model': sorted(model[bad[0]])}
+
+
+def search_blocks(ck: Ck) -> None:
+    """The property of the block builder on the real build_blocks: every entity in exactly one block, no empty block."""
+    import srctools._engine_db as E
+    rng = ck.rng
+    max_size = int(E.MAX_BLOCK_SIZE)
+    for _ in range(ck.budget(400, 6000)):
+        sizes, pairs = gen_block_case(rng, max_size)
+        ck.count('search_blocks')
+        what = check_blocks(sizes, pairs)
+        if what is None:
+            continue
+        # shrink: drop pairs, then trailing entities
+        key = 'binary-blocks-empty-block' if 'without entities' in what else 'binary-blocks-entity-not-in-exactly-one-block'
+        cls = lambda w: w is not None and (('without entities' in w) == (key == 'binary-blocks-empty-block'))   # noqa: E731
+        changed = True
+        while changed:
+            changed = False
+            for i in range(len(pairs)):
+                cand = pairs[:i] + pairs[i + 1:]
+                if cls(check_blocks(sizes, cand)):
+                    pairs, changed = cand, True
+                    break
+            if not changed and len(sizes) > 1 and all(a < len(sizes) - 1 and b < len(sizes) - 1 for a, b in pairs) and cls(check_blocks(sizes[:-1], pairs)):
+                sizes, changed = sizes[:-1], True
+        ck.violation(key, check_blocks(sizes, pairs) or what, {'kind': 'blocks', 'sizes': sizes, 'pairs': [list(p) for p in pairs]})
+
+
 # =============================================================================================== canonical definitions
 def canon_attr(v: Any, io_kind: bool, choice_norm: bool = True) -> tuple:
     from srctools.fgd import VALUE_TO_IO_DECAY, KVDef, ValueTypes
@@ -1821,13 +2248,25 @@ def diff_fields(a: dict, b: dict) -> list[str]:
     return [k for k in a if a[k] != b.get(k)]
 
 
-def parse_text(text: str):
+def parse_text(text: str, unknown_types: bool = False):
+    """FGD.parse_file on a text; unknown_types=True: ignore_unknown_valuetype=True (custom value types are kept as strings)."""
+    import warnings
     from srctools.fgd import FGD
     from srctools.filesys import VirtualFileSystem
     vfs = VirtualFileSystem({'c16.fgd': text})
     f = FGD()
-    f.parse_file(vfs, vfs['c16.fgd'])
+    if unknown_types:
+        with warnings.catch_warnings():
+            warnings.simplefilter('ignore')
+            f.parse_file(vfs, vfs['c16.fgd'], ignore_unknown_valuetype=True)
+    else:
+        f.parse_file(vfs, vfs['c16.fgd'])
     return f
+
+
+def has_custom_types(fgd: Any) -> bool:
+    return any(isinstance(v._type, str) for e in fgd.entities.values() for cat in ('keyvalues', 'inputs', 'outputs')
+               for tm in getattr(e, cat).values() for v in tm.values())
 
 
 def roundtrip_fgd(fgd: Any, opts: dict) -> dict:
@@ -1837,9 +2276,10 @@ def roundtrip_fgd(fgd: Any, opts: dict) -> dict:
         t1 = fgd.export(**opts)
     except Exception as e:   # noqa: BLE001
         return {'stage': 'export', 'error': f'{type(e).__name__}: {e}'[:300]}
+    unknown = has_custom_types(fgd)     # custom value types need the parser option that keeps them
     try:
-        f2 = parse_text(t1)
-    except (TokenSyntaxError, ValueError, KeyError) as e:
+        f2 = parse_text(t1, unknown)
+    except Exception as e:   # noqa: BLE001   (TokenSyntaxError is the documented one; anything else is reported the same way)
         return {'stage': 'parse', 'error': f'{type(e).__name__}: {str(e)[:240]}', 'text': t1}
     custom = opts['custom_syntax']
     changed = {}
@@ -1979,6 +2419,9 @@ KV_NAMES = ['targetname', 'speed', 'model', 'skin', 'StartDisabled', 'message', 
 DEFAULTS = ['', '', '0', '1', '-5', '10', '0 0 0', '255 255 255 200', 'models/props/box.mdl', 'Some text', '1.5', '-1.25', 'no way',
             'sprites/glow01.vmt', 'a-b', '0.0']
 RISKY_DEFAULTS = ['say "hi"', 'materials\\tools\\nodraw', "it's", 'two\nlines', 'tab\there', '\\']
+# custom (unknown to srctools) value type names: mixed case, digits, underscores; none is a spelling of a known type or of `ehandle`
+CUSTOM_TYPES = ['Locale_ID', 'BitField32', 'ultra_void', 'int1024', 'Mode_Enum', 'EHANDLE_2', 'Thing_Handle', 'X', 'vector3D', 'String_T',
+                'INTEGERS', 'Bool_', 'a.b', 'Flags2', 'EHandle']
 TAGSETS = [frozenset(), frozenset({'TF2'}), frozenset({'HL2', 'EP1'}), frozenset({'!P2'}), frozenset({'+CSGO', 'SRCTOOLS'}),
            frozenset({'SINCE_L4D'})]
 
@@ -2031,6 +2474,10 @@ def gen_fgd(rng: random.Random, plain: bool, ck: Optional[Ck] = None):
                            frozenset() if plain else rng.choice(TAGSETS)) for v in vals]
                     kv = KVDef(name, typ, txt('short', 'empty', 'special'), rng.choice(DEFAULTS), txt('empty', 'short', 'long'), vl or None)
                 else:
+                    if rng.random() < 0.12:
+                        typ = rng.choice(CUSTOM_TYPES)       # kept as a string: KVDef.custom_type
+                        if ck is not None:
+                            ck.hist('gen_custom_type', 'keyvalue')
                     kv = KVDef(name, typ, txt('short', 'short', 'empty', 'special'),
                                rng.choice(DEFAULTS if plain or rng.random() < 0.85 else RISKY_DEFAULTS),
                                txt('empty', 'empty', 'short', 'special', 'long', 'cut', 'nospace'))
@@ -2046,6 +2493,10 @@ def gen_fgd(rng: random.Random, plain: bool, ck: Optional[Ck] = None):
                     typ = rng.choice(list(ValueTypes))
                     if typ.has_list:
                         typ = ValueTypes.VOID
+                    if rng.random() < 0.15:
+                        typ = rng.choice(CUSTOM_TYPES)
+                        if ck is not None:
+                            ck.hist('gen_custom_type', cat)
                     getattr(e, cat).setdefault(name.casefold(), {})[tags] = IODef(name, typ, txt('empty', 'short', 'special', 'long'))
         if not plain and rng.random() < 0.5:
             e.resources = [Resource(rng.choice(['models/a.mdl', 'Weapon.Fire', 'materials/x y.vmt', 'scripts/"q".nut', 'a\\b.vmt']),
@@ -2096,6 +2547,8 @@ def fgd_cause(fgd: Any, opts: dict) -> str:
             return classify_longstring(ext, t, out, '\t')
     if any(c in d for d in raw for c in '"\\\n\r\t'):
         return 'special-character-in-default-or-choice-value'
+    if has_custom_types(fgd):
+        return 'custom-value-type'
     if any(e.is_alias for e in fgd.entities.values()) and custom:
         return 'alias-entity'
     return 'other'
@@ -2183,7 +2636,7 @@ def search_generated(ck: Ck) -> None:
         except Exception as e:   # noqa: BLE001
             exported = f'<export raises {e!r}>'
         ck.violation(gen_failure_key(r2, small, opts), f'generated FGD, export({opt_name(opts)}) -> parse -> export: {describe_gen_failure(r2)}',
-                     {'kind': 'fgd_text', 'opts': opts, 'exported': exported[:6000],
+                     {'kind': 'fgd_text', 'opts': opts, 'exported': exported[:6000], 'unknown_types': has_custom_types(small),
                       'entities': {k: canon_ent(e, opts['custom_syntax']) for k, e in small.entities.items()}})
 
 
@@ -2572,6 +3025,119 @@ def check_added_database(ck: Optional[Ck], names: list[str], seed: int, n_bundle
     return out
 
 
+# =============================================================================================== answers are the caller's own
+ISOLATION_MUTATIONS = ['add-keyvalue', 'change-default', 'change-io-desc', 'drop-bases', 'mutate-base', 'drop-inputs', 'rename']
+
+
+def mutate_answer(ent: Any, how: str) -> bool:
+    """Change a definition the way a caller may change what engine_def / engine_dbase handed out.  False = not applicable."""
+    from srctools.fgd import EntityDef, KVDef, ValueTypes
+    if how == 'add-keyvalue':
+        ent.keyvalues['c16_added'] = {frozenset(): KVDef('c16_added', ValueTypes.STRING, 'Added', 'x')}
+        ent.kv_order.append('c16_added')
+        return True
+    if how == 'change-default':
+        for tm in ent.keyvalues.values():
+            for kv in tm.values():
+                kv.default = 'c16-changed'
+                kv.disp_name = 'c16 changed'
+                return True
+        return False
+    if how == 'change-io-desc':
+        for cat in (ent.inputs, ent.outputs):
+            for tm in cat.values():
+                for o in tm.values():
+                    o.name = 'C16Changed'
+                    o.type = ValueTypes.VEC
+                    return True
+        return False
+    if how == 'drop-bases':
+        if not ent.bases:
+            return False
+        ent.bases.clear()
+        return True
+    if how == 'mutate-base':
+        for b in ent.bases:
+            if isinstance(b, EntityDef):
+                return mutate_answer(b, 'add-keyvalue')
+        return False
+    if how == 'drop-inputs':
+        if not ent.inputs and not ent.outputs:
+            return False
+        ent.inputs.clear()
+        ent.outputs.clear()
+        return True
+    if how == 'rename':
+        ent.classname = 'c16_renamed'
+        ent.desc = 'changed'
+        return True
+    raise ValueError(how)
+
+
+def deep_canon(e: Any) -> dict:
+    """multi_canon plus the content of the base definitions one level down (a caller can reach them through `.bases`)."""
+    from srctools.fgd import EntityDef
+    c = multi_canon(e)
+    c['base_defs'] = [multi_canon(b) for b in e.bases if isinstance(b, EntityDef)]
+    return c
+
+
+def check_isolation(cases: list[tuple[str, str]], via: str) -> list[tuple[str, str, str]]:
+    """One history on a fresh list of databases: for every (class, change) ask for the definition (engine_def, or once the whole
+    database), change the answer, ask again; at the end load the whole database: every later answer must be the first answer.
+    Returns [(class, change, what differs)]."""
+    from srctools import fgd as F
+    out: list[tuple[str, str, str]] = []
+    with engine_db_list(None):
+        whole0 = F.FGD.engine_dbase() if via == 'engine_dbase' else None
+        before: dict[str, tuple[str, dict]] = {}
+        firsts: dict[str, Any] = {}
+        for name, how in cases:        # all first answers are taken (and described) before anything is changed: inside ONE answer of
+            if name not in firsts:     # engine_dbase() the definitions rightly share their base objects
+                firsts[name] = F.EntityDef.engine_def(name) if whole0 is None else whole0.entities[name]
+                before[name] = (how, deep_canon(firsts[name]))
+        for name, (how, canon) in list(before.items()):
+            if not mutate_answer(firsts[name], how):
+                del before[name]
+        for name, (how, canon) in before.items():
+            again = deep_canon(F.EntityDef.engine_def(name))
+            if again != canon:
+                out.append((name, how, f'EntityDef.engine_def({name!r}) after the caller changed ({how}) what {via} had returned differs in '
+                                       f'{diff_fields(canon, again)} from the first answer'))
+        whole = F.FGD.engine_dbase()
+        for name, (how, canon) in before.items():
+            got = deep_canon(whole.entities[name])
+            if got != canon and not any(n == name for n, _, _ in out):
+                out.append((name, how, f'FGD.engine_dbase().entities[{name!r}] after the caller changed ({how}) what {via} had returned differs in '
+                                       f'{diff_fields(canon, got)} from the first answer'))
+    return out
+
+
+def search_isolation(ck: Ck, names: list[str]) -> None:
+    """State carried between calls: what engine_def() / engine_dbase() return belongs to the caller; changing it must not change what
+    the next look-up or the whole database says (the lazily decoded definitions are cached inside the database objects)."""
+    rng = ck.rng
+    for i in range(ck.budget(3, 30)):
+        via = 'engine_dbase' if i % 3 == 2 else 'engine_def'
+        cases = [(rng.choice(names), how) for how in ISOLATION_MUTATIONS for _ in range(2)]
+        rng.shuffle(cases)
+        try:
+            found = check_isolation(cases, via)
+        except Exception as ex:   # noqa: BLE001
+            found = [(cases[0][0], cases[0][1], f'raises {type(ex).__name__}: {ex}')]
+        ck.count('search_isolation', len(cases))
+        for name, how in cases:
+            ck.hist('isolation', f'{via}:{how}')
+        ck.seen(('isolation', via, tuple(cases)))
+        for name, how, what in found:
+            single = [(name, how)]
+            try:
+                alone = check_isolation(single, via)
+            except Exception:   # noqa: BLE001
+                alone = []
+            ck.violation(f'lazy-answer-not-isolated:{via}:{how}', what,
+                         {'kind': 'isolation', 'cases': [list(x) for x in (single if alone else cases)], 'via': via})
+
 # =============================================================================================== main
 def timed(label: str, fn: Callable[..., Any], *args: Any) -> Any:
     """Run one stage; with C16_TIMING set, print its wall time to stderr (information only, never part of a result)."""
@@ -2617,6 +3183,20 @@ INSTANCE_OBLIGATIONS = {
     'text_line_cfg_ok_is_these': 'Bool.eqb (line_cfg_ok gen_line_cfg) ((colons_before_desc_without_default gen_line_cfg =? 2)%nat '
                                  '&& bool_default_filled gen_line_cfg && res_block_if_defined gen_line_cfg)',
     'text_empty_resources_need_the_block': 'empty_resources_need_block',
+    'binary_blocks_first_overflow_block_stays_listed': 'blocks_cfg_ok',
+    'binary_blocks_empty_blocks_dropped_at_the_end': 'blocks_empty_dropped_at_end',
+    'binary_blocks_serialise_writes_every_entity_of_every_block': 'blocks_all_written',
+    'binary_blocks_early_drop_is_refuted': 'early_drop_breaks',
+    'property_hypotheses_hold_for_todays_source': 'c16_property_hypotheses',
+    'text_kind_keywords_read_back_as_their_kind': 'kind_keywords_read_back',
+    'text_kind_dispatch_without_casefold_is_refuted': 'unfolded_dispatch_breaks',
+    'text_kv_type_program_is_the_model': 'kv_type_prog_ok',
+    'text_io_type_program_is_the_model': 'io_type_prog_ok',
+    'text_kv_unknown_type_kept_verbatim': 'kv_unknown_type_kept_verbatim',
+    'text_io_unknown_type_kept_verbatim': 'io_unknown_type_kept_verbatim',
+    'text_type_table_canonical_names_read_back': 'type_table_ok',
+    'text_io_decay_written_texts_read_back_as_the_decayed_type': 'io_decay_table_ok',
+    'text_type_fold_then_fallback_is_refuted': 'fold_then_fallback_breaks',
     'lazy_bases_resolved_through_get_ent': 'lazy_via_get_ent',
     'lazy_map_lookup_is_refuted': 'map_lookup_breaks',
     'multi_db_engine_dbase_keeps_first_definition': 'merge_is_first engine_dbase_merge',
@@ -2644,6 +3224,7 @@ class StageCk:
         self.axioms: dict[str, list[str]] = {}
         self._log: list[tuple] = []
         self.error: Optional[BaseException] = None
+        self.heartbeat = 0      # seconds without a counted case after which a search stage is declared hung (0 = off)
 
     def __getattr__(self, attr: str) -> Any:            # seed, tier, thorough, scratch, ...
         return getattr(self._ck, attr)
@@ -2656,6 +3237,9 @@ class StageCk:
 
     def count(self, key: str, n: int = 1) -> None:
         self._log.append(('count', key, n))
+        if self.heartbeat:
+            import signal
+            signal.alarm(self.heartbeat)      # a search stage counts every case: progress
 
     def hist(self, group: str, key: Any, n: int = 1) -> None:
         self._log.append(('hist', group, key, n))
@@ -2682,64 +3266,258 @@ class StageCk:
     def theorems(self, *a: Any, **k: Any) -> Any:
         return Ck.theorems(self, *a, **k)          # type: ignore[arg-type]
 
-    def merge(self) -> None:
-        ck = self._ck
-        ck.obligations.extend(self.obligations)
-        ck.tie_broken.extend(self.tie_broken)
-        ck.notes.extend(self.notes)
-        ck.axioms.update(self.axioms)
-        for k, v in self.extra.items():
+    def payload(self) -> dict:
+        return {'obligations': self.obligations, 'tie_broken': self.tie_broken, 'notes': self.notes, 'axioms': self.axioms,
+                'extra': self.extra, 'log': self._log}
+
+    @staticmethod
+    def merge_payload(ck: Ck, r: dict) -> None:
+        ck.obligations.extend(r.get('obligations', []))
+        ck.tie_broken.extend(r.get('tie_broken', []))
+        ck.notes.extend(r.get('notes', []))
+        ck.axioms.update(r.get('axioms', {}))
+        for k, v in r.get('extra', {}).items():
             ck.extra[k] = v
-        for ev in self._log:
+        for ev in r.get('log', []):
             getattr(ck, ev[0])(*ev[1:])
 
+    def merge(self) -> None:
+        StageCk.merge_payload(self._ck, self.payload())
 
-def theorems_part(c: Any, part: int, nparts: int) -> None:
-    """Ck.theorems('Props/C16.v') for every nparts-th theorem starting at `part` (Print Assumptions walks the whole proof of each
-    theorem: about 0.7 s each, so the list is shared between the lanes).  Same records as Ck.theorems: obligation `theorem:<name>`
-    and the axioms of each."""
+
+def theorems_all(c: Any) -> None:
+    """Ck.theorems('Props/C16.v') at a fraction of the cost.  `Print Assumptions` walks the whole proof of a theorem (about 0.5 s each,
+    the shared lemmas again for every theorem).  The assumptions of a tuple of all theorems are the union of theirs, and one walk
+    visits every shared lemma once (2 s instead of 20 s): when that tuple is closed under the global context, every theorem is.
+    Otherwise (an axiom somewhere) the theorems are printed one by one.  Same records as Ck.theorems: obligation `theorem:<name>` and
+    the axioms of each."""
     import re
     from harness.common import ROCQ, _split_assumptions
-    names = re.findall(r'^\s*(?:Theorem|Lemma|Corollary)\s+([A-Za-z0-9_\']+)', (ROCQ / 'Props/C16.v').read_text(), re.M)[part::nparts]
-    body = 'Require Import SV.Props.C16.\n' + ''.join(f'Print Assumptions {n}.\n' for n in names)
-    rc, out = c.coq_scratch(body, f'assumptions{part}')
-    if rc != 0:
-        c.obligation(f'assumptions:Props/C16.v:{part}', False, out[-2000:])
-        c.tie_broken.append('Print Assumptions failed for Props/C16.v')
-        return
-    for n, b in zip(names, _split_assumptions(out, len(names))):
+    names = re.findall(r'^\s*(?:Theorem|Lemma|Corollary)\s+([A-Za-z0-9_\']+)', (ROCQ / 'Props/C16.v').read_text(), re.M)
+    body = 'Require Import SV.Props.C16.\nDefinition c16_all_theorems := (%s).\nPrint Assumptions c16_all_theorems.\n' % ', '.join(names)
+    rc, out = c.coq_scratch(body, 'assumptions_all')
+    if rc == 0 and out.strip().splitlines()[-1:] == ['Closed under the global context'] and 'Axioms:' not in out:
+        per = [[] for _ in names]
+    else:
+        body = 'Require Import SV.Props.C16.\n' + ''.join(f'Print Assumptions {n}.\n' for n in names)
+        rc, out = c.coq_scratch(body, 'assumptions_each', 1200)
+        if rc != 0:
+            c.obligation('assumptions:Props/C16.v', False, out[-2000:])
+            c.tie_broken.append('Print Assumptions failed for Props/C16.v')
+            return
+        per = _split_assumptions(out, len(names))
+    for n, b in zip(names, per):
         c.axioms[n] = b
         c.obligation(f'theorem:{n}', True, 'Qed; axioms: ' + ('none (closed under the global context)' if not b else ', '.join(b)))
 
 
-def run_stages(ck: Ck, lanes: list[list[tuple[str, Callable[..., Any], tuple]]]) -> Callable[[], bool]:
-    """Start one thread per lane; a lane runs its stages one after the other.  Returns a function that waits for all of them, merges
-    what the stages recorded in the order of the lists (lane by lane) and says whether any of them broke a tie."""
-    import threading
-    boxes = [[StageCk(ck, name) for name, _, _ in lane] for lane in lanes]
+def search_groups(data: bytes, tb: dict) -> list[list[tuple[str, Callable[..., Any], tuple]]]:
+    """The search stages, in two groups of about the same cost (one worker process each)."""
+    return [
+        [('search_longstring', search_longstring, ()),
+         ('search_bundled', search_bundled, ()),
+         ('search_type_text', search_type_text, ()),
+         ('search_multi_db', search_multi_db, (data, tb)),
+         ('search_isolation', search_isolation, (tb['names'],)),
+         ('search_lazy_synthetic', search_lazy_synthetic, ())],
+        [('search_generated', search_generated, ()),
+         ('search_binary', search_binary, (data,)),
+         ('search_binary_small', search_binary_small, (tb['names'],)),
+         ('search_blocks', search_blocks, ()),
+         ('search_lazy', search_lazy, (data, tb))],
+    ]
 
-    def work(lane: list[tuple[str, Callable[..., Any], tuple]], bxs: list[StageCk]) -> None:
-        for (_, fn, args), box in zip(lane, bxs):
+
+def search_stage(name: str) -> tuple[Callable[..., Any], tuple]:
+    data = raw_db()
+    tb = db_tables(data)
+    for g in search_groups(data, tb):
+        for n, fn, args in g:
+            if n == name:
+                return fn, args
+    raise KeyError(name)
+
+
+class StageTimeout(RuntimeError):
+    pass
+
+
+class StageHang(BaseException):
+    """Raised by SIGALRM inside a search stage that has not counted a case for HEARTBEAT seconds (not an Exception: the oracles'
+    `except Exception` clauses must not swallow it)."""
+
+
+# One case of a search stage takes milliseconds to (whole bundled database, heavy load) about 30 s.
+HEARTBEAT = int(os.environ.get('C16_HEARTBEAT', '150'))    # the variable exists for testing the mechanism itself
+
+
+def start_workers(ck: Ck, groups: list[list[tuple[str, Callable[..., Any], tuple]]], searches: bool, escalate: bool = False) -> Callable[[], bool]:
+    """Fork one worker process per group; a worker runs its stages one after the other, each with its own StageCk (own random
+    stream, buffered records), and sends what the stage recorded back through a pipe.  Returns a function that waits for all
+    workers, merges the records in the fixed order of the lists (group by group: nothing depends on timing) and says whether any
+    stage broke a tie.
+
+    Robustness: every stage has a wall-clock limit (STAGE_LIMIT_*, at least 5 times what the stage takes on a loaded machine).
+    A SEARCH stage that exceeds it, or raises an exception the oracles do not expect, is a finding about the implementation (a
+    fault made it loop or fail): reported as a violation whose replay re-runs that stage.  A TIE stage (coqc + case generation)
+    that exceeds it is a failure of the check itself: StageTimeout -> INTERNAL-ERROR, never a failed obligation."""
+    import multiprocessing
+    import pickle
+    import signal
+    import traceback
+    workers = []
+    for group in groups:
+        rd, wr = multiprocessing.Pipe(duplex=False)
+        sys.stdout.flush()
+        sys.stderr.flush()
+        parent_pid = os.getpid()
+        pid = os.fork()
+        if pid == 0:
+            code = 0
             try:
-                timed(box.name, fn, box, *args)
-            except BaseException as e:   # noqa: BLE001
-                box.error = e
-                return
-    threads = [threading.Thread(target=work, args=(lane, bxs), name=f'c16-lane{i}') for i, (lane, bxs) in enumerate(zip(lanes, boxes))]
-    for t in threads:
-        t.start()
+                rd.close()
+                try:        # die with the parent (e.g. an outer `timeout` kills it): no orphan keeps a core busy
+                    import ctypes
+                    ctypes.CDLL('libc.so.6', use_errno=True).prctl(1, signal.SIGKILL)    # PR_SET_PDEATHSIG
+                    if os.getppid() != parent_pid:       # the parent went away between fork and prctl
+                        os._exit(1)
+                except Exception:   # noqa: BLE001
+                    pass
+                for name, fn, args in group:
+                    box = StageCk(ck, name)
+                    box._ties_before = box._ties_before or escalate
+                    wr.send(('start', name))
+                    if searches:
+                        def on_alarm(*_: Any) -> None:
+                            signal.alarm(HEARTBEAT)
+                            raise StageHang(f'no case finished for {HEARTBEAT} s')
+                        signal.signal(signal.SIGALRM, on_alarm)
+                        box.heartbeat = HEARTBEAT
+                        signal.alarm(HEARTBEAT)
+                    try:
+                        timed(name, fn, box, *args)
+                    except StageHang:
+                        box.violation(f'search-stage-does-not-terminate:{name}',
+                                      f'{name}: a call into the implementation did not return within {HEARTBEAT} s (a case normally takes '
+                                      f'milliseconds to seconds) | {traceback.format_exc()[-900:]}',
+                                      {'kind': 'stage', 'stage': name, 'seed': ck.seed, 'tier': 'thorough' if box.budget(0, 1) else 'quick'})
+                    except Exception as e:   # noqa: BLE001
+                        in_impl = any('/srctools/' in fr.filename for fr in traceback.extract_tb(e.__traceback__))
+                        if not searches and not in_impl:
+                            raise                  # the check itself failed: INTERNAL-ERROR
+                        if not searches:
+                            # the implementation raised something no tie stage expects: the tie is broken (the searches
+                            # look for the input; a concrete violation of this run explains it)
+                            box.obligation(f'stage:{name}', False, f'the implementation raised {type(e).__name__}: {str(e)[:200]} | '
+                                           + traceback.format_exc()[-600:])
+                            box.tie_broken.append(f'tie stage {name}: the implementation raised {type(e).__name__}')
+                        else:
+                            box.violation(f'search-stage-raises:{name}:{type(e).__name__}',
+                                          f'{name} stopped with an exception none of its oracles expects from the implementation: '
+                                          f'{type(e).__name__}: {str(e)[:200]} | {traceback.format_exc()[-700:]}',
+                                          {'kind': 'stage', 'stage': name, 'seed': ck.seed, 'tier': 'thorough' if box.budget(0, 1) else 'quick'})
+                    signal.alarm(0)
+                    box.heartbeat = 0
+                    try:
+                        payload = pickle.dumps(box.payload())
+                    except Exception as e:   # noqa: BLE001
+                        payload = pickle.dumps({'error': f'records of {name} cannot be sent: {e!r}'})
+                    wr.send(('done', name, payload))
+                wr.send(('end',))
+            except BaseException:   # noqa: BLE001
+                try:
+                    wr.send(('crash', traceback.format_exc()[-3000:]))
+                except Exception:   # noqa: BLE001
+                    pass
+                code = 1
+            finally:
+                sys.stdout.flush()
+                sys.stderr.flush()
+                os._exit(code)
+        wr.close()
+        workers.append((pid, rd, [n for n, _, _ in group]))
 
-    def join() -> bool:
-        for t in threads:
-            t.join()
-        flat = [box for bxs in boxes for box in bxs]
-        for box in flat:
-            box.merge()
-        for box in flat:
-            if box.error is not None:
-                raise box.error
-        return any(box.tie_broken for box in flat)
+    def join(soft: bool = False) -> bool:
+        """soft: a search stage of this run did not terminate (reported as a violation): a tie stage that calls the same code
+        will not either, so the tie stages get STAGE_LIMIT_SEARCH_QUICK more and a late one is a failed `stage:` obligation."""
+        limit = (STAGE_LIMIT_SEARCH_THOROUGH if (ck.thorough or escalate or ck.tie_broken) else STAGE_LIMIT_SEARCH_QUICK) if searches else (STAGE_LIMIT_SEARCH_QUICK if soft else STAGE_LIMIT_TIE)
+        from multiprocessing.connection import wait as mp_wait
+        results: dict[str, dict] = {}
+        problems: list[str] = []
+        state = {rd: {'pid': pid, 'names': names, 'current': None, 't': time.time()} for pid, rd, names in workers}
+        open_ = set(state)
+
+        def close(rd: Any, kill: bool) -> None:
+            open_.discard(rd)
+            if kill:
+                try:
+                    os.kill(state[rd]['pid'], signal.SIGKILL)
+                except OSError:
+                    pass
+            try:
+                os.waitpid(state[rd]['pid'], 0)
+            except OSError:
+                pass
+            rd.close()
+        while open_:
+            ready = mp_wait(list(open_), 2.0)
+            now = time.time()
+            for rd in list(open_):
+                st = state[rd]
+                if rd in ready:
+                    try:
+                        msg = rd.recv()
+                    except (EOFError, OSError):
+                        problems.append(f'worker for {st["names"]} died (stage {st["current"]})')
+                        close(rd, True)
+                        continue
+                    if msg[0] == 'start':
+                        st['current'], st['t'] = msg[1], now
+                    elif msg[0] == 'done':
+                        results[msg[1]] = pickle.loads(msg[2])
+                        st['current'], st['t'] = None, now
+                    elif msg[0] == 'crash':
+                        problems.append(f'stage {st["current"]} crashed:\n{msg[1]}')
+                        close(rd, True)
+                    else:
+                        close(rd, False)
+                elif now - st['t'] > limit:
+                    cur = st['current']
+                    if searches and cur is not None:
+                        results[cur] = {'log': [('violation', f'search-stage-does-not-terminate:{cur}',
+                                                 f'{cur} did not finish within {limit} s (its normal time is a small fraction of that): a call into the '
+                                                 'implementation does not return', {'kind': 'stage', 'stage': cur, 'seed': ck.seed,
+                                                                                    'tier': 'thorough' if limit == STAGE_LIMIT_SEARCH_THOROUGH else 'quick'}, False)]}
+                    elif soft and cur is not None:
+                        results[cur] = {'obligations': [{'name': f'stage:{cur}', 'ok': False, 'detail': f'did not finish within {limit} s after a search stage '
+                                                         'was found not to terminate (same implementation code)'}],
+                                        'tie_broken': [f'tie stage {cur} did not finish (a call into the implementation does not return)']}
+                    else:
+                        problems.append(f'timeout: stage {cur} of {st["names"]} did not finish within {limit} s')
+                    close(rd, True)
+        broke = False
+        for _, _, names in workers:
+            for n in names:
+                r = results.get(n)
+                if r is None:
+                    continue
+                if 'error' in r:
+                    problems.append(r['error'])
+                    continue
+                StageCk.merge_payload(ck, r)
+                broke = broke or bool(r.get('tie_broken'))
+        if problems:
+            exc = StageTimeout if any(p.startswith('timeout') for p in problems) else RuntimeError
+            raise exc('C16 worker failure (the check itself, nothing is claimed): ' + ' || '.join(problems))
+        return broke
     return join
+
+
+# wall-clock limits per stage (seconds).  Quick search stages take 0.1-16 s at load 25 and up to about 50 s at load 80; with the
+# thorough budgets 5-200 s.  Tie stages: up to 30 s quick, 3-5 min thorough (coqc), and their coq_eval calls carry their own limits.
+STAGE_LIMIT_SEARCH_QUICK = 300
+STAGE_LIMIT_SEARCH_THOROUGH = 900
+STAGE_LIMIT_TIE = 2400
 
 
 def run(ck: Ck) -> None:
@@ -2756,9 +3534,18 @@ def run(ck: Ck) -> None:
                'special / long, as written and with 1-2 token mutations, non-trivial = more than 6 tokens; several databases: 2-3 '
                'hand-built databases over 8 class names that overlap, alias bases inside and across blocks, histories of engine_def '
                'queries then engine_dbase(), and generated override databases put in front of the bundled one (add_engine_database), '
-               'non-trivial = a class defined in two databases is queried')
+               'non-trivial = a class defined in two databases is queried; type texts: known type names in random case with blanks and a '
+               'leading *, custom names with mixed case / digits / underscores, edge cases (empty, *, ehandle spellings), through both '
+               'line parsers with and without ignore_unknown_valuetype, and hand-written FGD texts with 1-6 such lines, non-trivial = has an '
+               'upper-case letter; custom value types on 12-15 % of the generated keyvalues / inputs / outputs; kind keywords of every '
+               'EntityTypes member in random case; block builder: 1-14 entities with sizes on the scale of MAX_BLOCK_SIZE, random '
+               'overlapping pairs over a subset of them, non-trivial = more than one block and at least one pair; answer isolation: histories '
+               'of 14 (class, change) pairs over the bundled database through engine_def or one engine_dbase(), distinct by content')
     ck.trusted.append('hand-written models Fmt/LongString.v, Fmt/FgdBin.v, Fmt/FgdBinEnt.v, Fmt/FgdLine.v, Fmt/FgdBody.v, Fmt/FgdHead.v, SM/LazyDb.v, SM/LazyDbMulti.v (tied by differential '
                       'correspondence on every run; decisive branches and layouts read from the source by the translator)')
+    ck.trusted.append('hand-written models Fmt/FgdKindKw.v (top-level dispatch, str.title/replace on ASCII) and SM/FgdBlocks.v (block builder), tied by '
+                      'correspondence with the configuration read from the source; Fmt/FgdTypeText.v: the programs are generated and proved equal '
+                      'to the hand model, str.casefold = ASCII lower-casing')
     ck.trusted.append('srctools.tokenizer.Tokenizer as the lexer of the text-line correspondences (only quoted strings are modelled at character level)')
     ck.trusted.append('snippets, autovis() helpers, the @Kind keyword and the order of lines inside an entity are outside every model: covered by search only; '
                       'helper objects are abstract in the header model (HELPER_IMPL[..].parse tabulated per run)')
@@ -2776,14 +3563,21 @@ def run(ck: Ck) -> None:
         'translator normalisation: attribute loads are plain field reads, callees do not re-assign fields of their arguments, the str methods '
         'casefold/lower/upper/strip/... have no effects (single-assignment locals bound to such expressions are inlined before matching)',
         'several databases: every database is an independent LazyDb; deepcopy of the answers and FGD.apply_bases() after the merge are outside the model',
+        'custom value type names are stripped, do not start with *, and are not a spelling of a known type (nor `ehandle` on I/O lines): '
+        'what export -> parse can keep; `(* Foo)` and `(**Foo)` are outside (the stored name would start with a blank / a star)',
+        'block builder: the iteration order of the set of unplaced entities is a parameter (any order); the final sort by length and '
+        'compute_ent_strings are outside the model',
         'accepted normalisations: I/O type decay, empty BOOL default = "0", effective keyvalue order, newline -> space in choice/flag names',
     ]
     ok_t = timed('translate', ck.translate, 'FgdConsts_gen', c16_fgd.translate)
     side = ck.extra.get('translated', {}).get('FgdConsts_gen', {})
-    built = ok_t and timed('build', ck.build, ['Props/C16.vo'])
     data = raw_db()
     tb = db_tables(data)
-    join: Callable[[], bool] = lambda: False
+    # The searches are pure Python and need no proof build: their worker processes start now, beside the build and the tie stages.
+    first_escalated = bool(ck.thorough or ck.tie_broken)
+    join_searches = start_workers(ck, search_groups(data, tb), searches=True)
+    built = ok_t and timed('build', ck.build, ['Props/C16.vo'])
+    join: Callable[..., bool] = lambda soft=False: False
     if built:
         lazy_side = side.get('engine_db', {}).get('lazy', {})
         multi_side = side.get('multi_db', {})
@@ -2799,39 +3593,37 @@ def run(ck: Ck) -> None:
         # informational: duplicates in the order lists (harmless, see c16_order_roundtrip)
         vo = side.get('engine_db', {}).get('vt_order', [])
         ck.extra['value_type_order_duplicates'] = sorted({x for x in vo if vo.count(x) > 1})
-        # The tie stages are coqc processes plus case generation; the searches are pure Python.  Two lanes of tie stages run
-        # beside the searches (see StageCk: private random streams, buffered records, so nothing depends on timing).
-        join = run_stages(ck, [
-            [('theorems_0', theorems_part, (0, 2)),
+        # The tie stages are coqc processes plus case generation: six worker processes (see start_workers / StageCk: private
+        # random streams, buffered records merged in the order of these lists, so nothing depends on timing).
+        join = start_workers(ck, [
+            [('theorems', theorems_all, ()),
              ('instance_obligations', lambda c: c.instance_obligations(IMPORTS, INSTANCE_OBLIGATIONS, name='c16'), ()),
              ('data_obligations', data_obligations, (data, tb)),
-             ('corr_writer_reader', corr_writer_reader, ()),
-             ('corr_strdict', corr_strdict, ()),
-             ('corr_lazy', corr_lazy, (data, tb, via)),
-             ('corr_head', corr_head, ())],
-            [('theorems_1', theorems_part, (1, 2)),
-             ('corr_binary_records', corr_binary_records, (data, tb)),
              ('line_data_obligations', line_data_obligations, ()),
-             ('corr_lines', corr_lines, ()),
-             ('corr_multi', corr_multi, (via, bool(multi_side.get('effective_first', True)))),
              ('corr_bits', corr_bits, ())],
-        ])
-
-    def searches() -> None:
-        timed('search_longstring', search_longstring, ck)
-        timed('search_bundled', search_bundled, ck)
-        timed('search_generated', search_generated, ck)
-        timed('search_binary', search_binary, ck, data)
-        timed('search_binary_small', search_binary_small, ck, tb['names'])
-        timed('search_lazy', search_lazy, ck, data, tb)
-        timed('search_lazy_synthetic', search_lazy_synthetic, ck)
-        timed('search_multi_db', search_multi_db, ck, data, tb)
-    searches()
-    if join():
-        # a tie stage found a disagreement while the searches ran with the small budgets: search again, escalated (ck.budget)
-        ck.notes.append('a tie was broken by a stage that ran beside the searches: searches repeated with the thorough budgets')
-        searches()
+            [('corr_writer_reader', corr_writer_reader, ())],
+            [('corr_lines', corr_lines, ())],
+            [('corr_binary_records', corr_binary_records, (data, tb)),
+             ('corr_blocks', corr_blocks, ())],
+            [('corr_strdict', corr_strdict, ()),
+             ('corr_lazy', corr_lazy, (data, tb, via))],
+            [('corr_head', corr_head, ()),
+             ('corr_type_text', corr_type_text, ()),
+             ('corr_kind_keyword', corr_kind_keyword, ()),
+             ('corr_multi', corr_multi, (via, bool(multi_side.get('effective_first', True))))],
+        ], searches=False)
+    join_searches()
+    hung = any(v['key'].startswith('search-stage-does-not-terminate') for v in ck.violations)
+    if (join(hung) or ck.tie_broken) and not first_escalated and not hung:
+        # a tie was broken by the build or by a tie stage while the searches ran with the small budgets: search again, escalated
+        ck.notes.append('a tie was broken by the build or by a stage that ran beside the searches: searches repeated with the thorough budgets')
+        start_workers(ck, search_groups(data, tb), searches=True, escalate=True)()
     keys = {v['key'] for v in ck.violations}
+    if any(k.startswith('search-stage-') for k in keys):
+        ck.explain('translate:')      # the stage replay is the concrete input for whatever the translator could not read either
+    if keys:
+        ck.explain('instance:property_hypotheses_hold')   # the conjunction of the named booleans: the parts say which mechanism
+        ck.explain('stage:')      # a tie stage the implementation made raise / hang is explained by any concrete finding of this run
     # Failed obligations are explained by a concrete violation of the same mechanism (with a replayable input).
     if any(k.startswith('longstring:empty-text') or k.startswith('bundled-db-export-unparseable:empty-display-name') for k in keys):
         ck.explain('instance:longstring_empty_text_written_as_quotes')
@@ -2851,16 +3643,34 @@ def run(ck: Ck) -> None:
     if any('resources' in k and (k.startswith('generated-fgd') or k.startswith('bundled-db')) for k in keys):
         ck.explain('instance:text_resources_block_written_when_defined')
         ck.explain('instance:text_line_cfg_ok_is_these')
+    if any(k.startswith('type-text-') or 'custom-value-type' in k for k in keys):
+        ck.explain('instance:text_kv_type_')
+        ck.explain('instance:text_io_type_')
+        ck.explain('instance:text_kv_unknown_type')
+        ck.explain('instance:text_io_unknown_type')
+        ck.explain('instance:text_type_')
+        ck.explain('correspondence:text_type_text')
+    if any(k.startswith('type-text-') or k.startswith('generated-fgd') or k.startswith('bundled-db') for k in keys):
+        # a type text that is written is not read back as the (decayed) member: parse errors / changed definitions are the inputs
+        ck.explain('instance:text_io_decay')
+        ck.explain('instance:text_type_table')
+        ck.explain('data:io_type_names')
+        ck.explain('data:value_type_names')
     if any(k.startswith('generated-fgd') or k.startswith('bundled-db') for k in keys):
         ck.explain('instance:text_kv_')
         ck.explain('instance:text_bool_')
         ck.explain('instance:text_line_cfg_ok_is_these')
         ck.explain('correspondence:text_lines_')
         ck.explain('correspondence:text_header_')
+        ck.explain('instance:text_kind_')
+        ck.explain('correspondence:text_kind_keyword')
     # a translator that failed closed at a site is explained by a concrete violation of the mechanism that site belongs to
-    site_of = (('engine_dbase', 'lazy-multi-db'), ('engine_def', 'lazy-multi-db'), ('add_engine_database', 'lazy-multi-db'), ('EngineDB', 'lazy-'), ('_parse_block', 'lazy-'), ('get_fgd', 'lazy-'), ('serialise', 'binary-'), ('BinStrDict', 'binary-'),
+    site_of = (('engine_dbase', 'lazy-'), ('engine_def', 'lazy-'), ('add_engine_database', 'lazy-'), ('EngineDB', 'lazy-'), ('_parse_block', 'lazy-'), ('get_fgd', 'lazy-'), ('serialise', 'binary-'), ('build_blocks', 'binary-'), ('BinStrDict', 'binary-'),
                ('_write_longstring', 'longstring:'), ('_fgd_escape', 'longstring:'), ('ESCAPE', 'longstring:'),
-               ('KVDef.export', 'generated-fgd'), ('IODef.export', 'generated-fgd'), ('EntityDef.export', 'generated-fgd'))
+               ('KVDef.export', 'generated-fgd'), ('IODef.export', 'generated-fgd'), ('EntityDef.export', 'generated-fgd'),
+               ('KVDef._parse', 'type-text-'), ('IODef._parse', 'type-text-'), ('VALUE_TYPE_LOOKUP', 'type-text-'), ('ValueTypes', 'type-text-'), ('VALUE_TO_IO_DECAY', 'generated-fgd'), ('VALUE_TO_IO_DECAY', 'type-text-'),
+               ('KVDef._parse', 'generated-fgd'), ('IODef._parse', 'generated-fgd'), ('FGD.parse_file', 'generated-fgd'),
+               ('FGD.parse_file', 'bundled-db'), ('EntityTypes', 'generated-fgd'))
     for tie in ck.tie_broken:
         if tie.startswith('translator '):
             if any(word in tie and any(k.startswith(pref) for k in keys) for word, pref in site_of):
@@ -2888,10 +3698,72 @@ def replay(data: dict) -> int:
         print('read back :', 'PARSE ERROR' if back is None else repr(back[-80:]))
         print('round trip:', ok)
         return 0 if ok else 1
+    if kind == 'stage':
+        # a search stage that raised an unexpected exception or did not terminate: run it again (same seed, same budgets)
+        import signal
+        import traceback
+
+        class ReplayCk:
+            def __init__(self) -> None:
+                self.seed, self.tier, self.thorough = r['seed'], r['tier'], r['tier'] == 'thorough'
+                self.rng = random.Random(f'{r["seed"]}:{r["stage"]}')
+                self.extra: dict = {}
+                self.notes: list = []
+                self.found: list = []
+
+            def budget(self, q: int, t: int) -> int:
+                return t if self.thorough else q
+
+            def count(self, *a: Any, **k: Any) -> None:
+                signal.alarm(limit)
+
+            def hist(self, *a: Any, **k: Any) -> None:
+                pass
+            seen = sample = hist
+
+            def violation(self, key: str, what: str, rep: Any, no_input: bool = False) -> None:
+                print('VIOLATION', key, ':', what)
+                self.found.append(key)
+        fn, args = search_stage(r['stage'])
+        rck = ReplayCk()
+        limit = HEARTBEAT
+
+        def on_alarm(*_: Any) -> None:
+            raise TimeoutError(f'{r["stage"]}: no case finished for {limit} s')
+        signal.signal(signal.SIGALRM, on_alarm)
+        signal.alarm(limit)
+        try:
+            fn(rck, *args)
+        except BaseException:   # noqa: BLE001
+            traceback.print_exc()
+            print('VIOLATION: the stage raised / did not terminate')
+            return 1
+        finally:
+            signal.alarm(0)
+        return 1 if rck.found else 0
+    if kind == 'blocks':
+        print('entity sizes:', r['sizes'], ' overlapping pairs:', r['pairs'])
+        print('blocks:', impl_build_blocks(r['sizes'], [tuple(p) for p in r['pairs']]))
+        w = check_blocks(r['sizes'], [tuple(p) for p in r['pairs']])
+        print('VIOLATION ' + w if w else 'every entity is in exactly one block')
+        return 1 if w else 0
+    if kind == 'isolation':
+        w2 = check_isolation([tuple(x) for x in r['cases']], r['via'])
+        for _, _, t in w2:
+            print('VIOLATION', t)
+        if not w2:
+            print('every later answer and the whole database equal the first answers')
+        return 1 if w2 else 0
+    if kind == 'type_text':
+        print(r['text'])
+        found_t = check_type_text([tuple(x) for x in r['lines']])
+        for k, t in found_t:
+            print('VIOLATION', k, ':', t)
+        return 1 if found_t else 0
     if kind == 'fgd_text':
         print(r['exported'])
         try:
-            f = parse_text(r['exported'])
+            f = parse_text(r['exported'], bool(r.get('unknown_types')))
             print('parsed entities:', list(f.entities))
             print('re-export equal:', f.export(**r['opts']) == r['exported'])
         except Exception as e:   # noqa: BLE001
